@@ -21,7 +21,7 @@ from fmon.ref import grammar as G
 from workloads import designs as D
 
 PROP = "C09"
-DECIDING = ["drop-equals-complete-rows", "error-iff-incomplete", "pass-keeps-rows", "other-policy-refused"]
+DECIDING = ["drop-equals-complete-rows", "error-iff-incomplete", "pass-keeps-rows", "other-policy-refused", "same-object-sequence"]
 
 
 def spec(tier):
@@ -71,15 +71,55 @@ def diff(a, b):
     return None
 
 
+def used_columns(text, columns):
+    """Columns the MODEL uses: the reference grammar parses the text, the reference algebra expands it
+    (so that the variables of a term that is subtracted again, `x + z - z`, do not count), and the names
+    in expression position of every remaining factor, of the response and of call arguments are collected."""
+    from fmon.ref import algebra as A
+
+    ast = G.parse(text)
+    names = set()
+    try:
+        resp, common, group = A.Algebra("ordered").model(ast)
+        factors = []
+        for t in common:
+            if t[0] == "t":
+                factors += list(t[1])
+        for g in group:
+            for part in (g[1], g[2]):
+                if part[0] == "t":
+                    factors += list(part[1])
+        if ast[0] == "bin" and ast[1] == "~":
+            names |= G.used_names(ast[2])
+        atoms = {}
+
+        def collect(nd):
+            if nd[0] in ("call", "var", "bq"):
+                atoms.setdefault(A.call_name(nd) if nd[0] != "var" else nd[1], nd)
+            if nd[0] == "bin":
+                collect(nd[2]); collect(nd[3])
+            elif nd[0] == "un":
+                collect(nd[2])
+
+        collect(ast)
+        for f in factors:
+            names |= G.used_names(atoms[f]) if f in atoms else {f}
+    except A.Undefined:
+        names = G.used_names(ast)
+    return sorted(c for c in names if c in columns)
+
+
 def judge(case, m):
     import formulae
 
     df, meta = D.case_frame(case["frame"])
     text = D.formula_text(case)
+    if case.get("cancelled"):
+        # a term that is added and removed again: its variable is not used by the model
+        text = text + f" + {case['cancelled']} - {case['cancelled']}"
     ns = D.namespace(meta)
     # used columns from the reference grammar
-    ast = G.parse(text)
-    used = sorted(c for c in G.used_names(ast) if c in df.columns)
+    used = used_columns(text, df.columns)
     rng = np.random.default_rng(case["frame"]["seed"] + 9)
     pat = case["pattern"]
     n = len(df)
@@ -104,7 +144,9 @@ def judge(case, m):
     elif pat == "column-but-two" and n > 3 and (numeric_used if case["policy"] == "pass" else used):
         pool = numeric_used if case["policy"] == "pass" else used
         blank(pool[int(rng.integers(0, len(pool)))], np.arange(2, n))
-    elif pat == "only-unused":
+    if case.get("cancelled") and case["cancelled"] not in used:
+        blank(case["cancelled"], rng.choice(n, size=max(1, n // 3), replace=False))
+    if pat == "only-unused":
         for col in [c for c in df.columns if c not in used and meta.get(c, {}).get("kind") in ("num", "pos", "str")][:3]:
             blank(col, rng.choice(n, size=max(1, n // 2), replace=False))
     # the row filter must be positional: arbitrary (non-unique, non-sorted, non-integer) index
@@ -251,6 +293,78 @@ def judge(case, m):
         m.violation("pass-keeps-rows", p, case=case, key="pass:" + p.split(":")[0])
 
 
+def judge_sequence(case, m):
+    """One caller-owned frame object holding ONLY the used columns, handed to design_matrices several times:
+    drop, error, pass, then an in-place change of missingness, then again - every call must behave as if it
+    were the first one and must leave the frame alone."""
+    import formulae
+
+    df0, meta = D.case_frame(case["frame"])
+    text = D.formula_text(case)
+    ns = D.namespace(meta)
+    used = used_columns(text, df0.columns)
+    numeric_used = [c for c in used if meta[c]["kind"] in ("num", "pos")]
+    if not used or not numeric_used:
+        return
+    rng = np.random.default_rng(case["frame"]["seed"] + 99)
+    frame = df0[used].copy()
+    n = len(frame)
+    col = numeric_used[int(rng.integers(0, len(numeric_used)))]
+    rows = rng.choice(n, size=min(n - 1, 2), replace=False)
+    frame.loc[frame.index[rows], col] = np.nan
+    case = {**case, "text": text, "sequence": True}
+    m.current_case = case
+    orig = attach.ORIG["design_matrices"]
+
+    def fresh(policy, fr):
+        with core.shadow():
+            try:
+                return sig(orig(text, fr.copy(), policy, 0, ns))
+            except Exception as e:
+                return ("raise", type(e).__name__)
+
+    def live(policy):
+        try:
+            return sig(formulae.design_matrices(text, frame, na_action=policy, extra_namespace=ns))
+        except Exception as e:
+            return ("raise", type(e).__name__)
+
+    def same(a, b):
+        if isinstance(a, tuple) or isinstance(b, tuple):
+            return isinstance(a, tuple) and isinstance(b, tuple) and a[1] == b[1]
+        return diff(a, b) is None
+
+    # the whole plan, with the expected outcome of every step computed FIRST on private copies, so that no
+    # monitor-made call sits between two consecutive calls on the caller's frame object
+    plan = [("drop", None), ("error", None), ("pass", None), ("drop", None),
+            ("error", "repair"), ("drop", None), ("error", "break"), ("drop", None)]
+    state = frame.copy()
+    wants = []
+    for policy, change in plan:
+        if change == "repair":
+            state.loc[state.index[rows], col] = 0.25
+        elif change == "break":
+            state.loc[state.index[rows[:1]], col] = np.nan
+        wants.append(fresh(policy, state))
+    for step, (policy, change) in enumerate(plan):
+        if change == "repair":
+            frame.loc[frame.index[rows], col] = 0.25  # repaired in place: complete now
+        elif change == "break":
+            frame.loc[frame.index[rows[:1]], col] = np.nan  # broken again in place
+        before = frame.copy()
+        want = wants[step]
+        got = live(policy)
+        m.ev("same-object-sequence")
+        if not same(want, got):
+            m.violation("same-object-sequence", f"step {step} ({policy}{', after an in-place ' + change if change else ''}) on the same frame object: "
+                        f"{got if isinstance(got, tuple) else 'returns'} but a first call on an equal frame "
+                        f"{want if isinstance(want, tuple) else 'returns'}" + ("" if isinstance(got, tuple) or isinstance(want, tuple) else ": " + str(diff(want, got))),
+                        case=case, key="sequence:" + policy)
+        if not before.equals(frame) or list(before.columns) != list(frame.columns) or len(before) != len(frame):
+            m.violation("same-object-sequence", f"step {step} ({policy}): the caller's frame was changed", case=case, key="sequence:frame-changed")
+            frame.loc[:, :] = before
+
+
 def run_shard(i, n, tier, seed, m):
     rng = random.Random(seed * 1000003 + i * 29 + 9)
     ncases = (2400 if tier == "quick" else 30000) // n
@@ -266,6 +380,17 @@ def run_shard(i, n, tier, seed, m):
             text = D.formula_text(c)
             m.case({**c, "text": text}, canon=[text, c["frame"]["seed"], c["pattern"], policy], nontrivial=c["pattern"] not in ("none", "only-unused"))
             judge(c, m)
+        if k % 4 == 1:
+            c = dict(case)
+            c["policy"] = rng.choice(["drop", "error"])
+            c["pattern"] = rng.choice(["none", "one-cell"])
+            c["cancelled"] = rng.choice(["cnt", "w", "z", "x"])
+            text = D.formula_text(c) + " (+ cancelled " + c["cancelled"] + ")"
+            m.case({**c, "text": text}, canon=[text, c["frame"]["seed"], c["pattern"], c["policy"]], nontrivial=True)
+            judge(c, m)
+        if k % 5 == 2:
+            m.case({**case, "text": D.formula_text(case), "sequence": True}, canon=["sequence", D.formula_text(case), case["frame"]["seed"]], nontrivial=True)
+            judge_sequence(dict(case), m)
         if k % 10 == 0:
             c = dict(case)
             c["policy"] = rng.choice(["Drop", "omit", "", "raise", "ignore", "DROP", "none"])
@@ -275,4 +400,7 @@ def run_shard(i, n, tier, seed, m):
 
 
 def replay(rec, m):
-    judge(rec["case"], m)
+    if rec["case"].get("sequence"):
+        judge_sequence(rec["case"], m)
+    else:
+        judge(rec["case"], m)
